@@ -297,7 +297,9 @@ JudgeSet(fmt, chain, s, e) ==
                       \cup (IF slotok THEN {} ELSE {<<"C04", "record_set_content_after_none">>} \cup fabset) \cup others,
              s |-> IF endok THEN [keep EXCEPT !.mode = IF s.mode = "stream" THEN "ended" ELSE s.mode] ELSE [s EXCEPT !.mode = "lost"]]
     [] s.mode = "stream" /\ r.k \in FormatErr ->
-         LET cand == {i \in s.cur..N : \A u \in s.cur..(i - 1) : chain[u].okRec}
+         \* the records that precede the invalid one are delivered first ("deliver only records that
+         \* precede it and then report its error"): the error is due when the cursor has reached it
+         LET cand == {s.cur}
              kok == \E i \in cand : KindIn(r, chain[i].errs)
              fok == \E i \in cand : FieldsIn(r, chain[i].errs)
          IN [viol |-> (IF kok THEN {} ELSE {<<"C04", "error_kind">>})
